@@ -99,6 +99,47 @@ def run(ctx):
         st["hist"]["cut_%s" % ("inside" if 0 < n < m else "at_end" if n == m else "beyond" if n > m else "zero")] += 1
         if len(st["samples"]) < 4 and 1 < n < m and ordered:
             st["samples"].append({"query": r["query"], "rows": [list(x) for x in rows[:5]], "unlimited_first": [list(x) for x in full[:6]]})
+    # ---- archives: members count towards LIMIT like ordinary rows, filtered or not, ordered or not ----
+    from . import c19, fstree
+    ajobs = []
+    for i in range(6 if ctx.tier == "quick" else 120):
+        root, zips, corrupts = c19.gen_case(ctx, 1000 + i)
+        rb = os.path.basename(root)
+        for where in ("", "where size > 5", "where name like '%a%'", "where size < 100"):
+            for ob in ("", " order by size, path"):
+                ajobs.append((rb, where, ob))
+
+    def aone(job):
+        rb, where, ob = job
+        full, r0 = qlib.select(ctx.impl, "path, size", "from %s archives %s%s" % (rb, where, ob), cwd=ctx.scratch)
+        outs = []
+        if full is not None:
+            for n in list(range(1, min(len(full), 25) + 3)):
+                rows, r = qlib.select(ctx.impl, "path, size", "from %s archives %s%s limit %d" % (rb, where, ob, n), cwd=ctx.scratch)
+                outs.append((n, rows, r))
+        return job, full, r0, outs
+
+    for (rb, where, ob), full, r0, outs in pmap(aone, ajobs):
+        if full is None:
+            ctx.violation("impl-violates-spec", "archive query failed: %r" % r0["stderr"][:160], input={"query": r0["query"]})
+            continue
+        for n, rows, r in outs:
+            st["evaluations"] += 1
+            case = {"tree": rb, "query": r["query"], "unlimited_rows": len(full)}
+            if rows is None or len(rows) != min(n, len(full)):
+                ctx.violation("impl-violates-spec", "with archives, limit %d returned %s rows; the unlimited query returns %d" % (n, None if rows is None else len(rows), len(full)), input=case)
+                break
+            if ob and [x[1] for x in rows] != [x[1] for x in full[:len(rows)]]:
+                ctx.violation("impl-violates-spec", "with archives, the keys under limit %d are not the first keys of the full sort" % n, input=case)
+                break
+            if rows != full[:len(rows)]:
+                ctx.violation("correspondence-mismatch", "with archives, limited rows are not the literal prefix the model predicts", input=case, observed=rows[:6], model=full[:6], concrete=False,
+                              correspondence="binary LIMIT over archive members vs firstn n (unlimited) [C06_unordered_prefix / C06_buffered_sees_every_candidate]")
+                break
+            st["agreed"] += 1
+            if 0 < n < len(full):
+                st["distinct"].add(r["query"])
+            st["hist"]["archives_" + ("ordered" if ob else "unordered")] += 1
     ctx.coverage.update(
         evaluations=st["evaluations"], distinct_nontrivial=len(st["distinct"]), traces_validated_against_impl=st["agreed"],
         rule="harness: random insertion sequences into the real TopN with limits 1-5 vs model.TopN.run; binary: for each generated (tree with ties, query [ordered and unordered, optional WHERE, bfs/dfs]) EVERY N in 1..M+2 and 0: row count = min(N,M), sub-multiset, key sequence = first N keys of the full sort, and literal prefix of the unlimited result (what the theorems predict). non-trivial = the cut falls strictly inside the result",
